@@ -160,6 +160,9 @@ def main():
             if r["reasons"] and r["required"]:
                 problems.append("required obligation %s inconclusive: %s" % (r["name"], "; ".join(r["reasons"])))
 
+    na = [r["name"] for r in results if r["verdict"] == "not-applicable"]
+    if na and not any(r["verdict"] == "discharged" and r["required"] for r in results):
+        problems.append("no required obligation could be applied to this tree (private entry points not found: %s)" % ", ".join(na))
     if n_viol:
         exit_code = 1
     elif problems:
